@@ -215,6 +215,10 @@ def gen_interval(rng, T, i, nops):
             lines.append('int.include %s %s' % (toks(T, l2), toks(T, h2)))
             lo = [min(a, b) for a, b in zip(lo, l2)]
             hi = [max(a, b) for a, b in zip(hi, h2)]
+            if d >= 2 and rng.chance(0.6):
+                # "a box built from an interval reproduces that interval" — for the interval OBJECT as it is after its unions
+                # (seeded change c20d: a cached width that the N-D include() does not refresh)
+                lines.append('int.hullbox')
         else:
             v = []
             for k in range(d):
@@ -571,6 +575,18 @@ def oracle(case, out, stats):
             if r != itv[0] + itv[1]:
                 bad('interval-hull', 'include gives %r, componentwise hull is %r' % (r, itv[0] + itv[1]))
             st('interval_hulls_checked')
+        elif op == 'int.hullbox':
+            r = vals(f)
+            d = len(itv[0])
+            if len(r) != 2 * d:
+                bad('malformed', 'bad output')
+                continue
+            for i in range(d):
+                tol = 4 * (EPS['f32'] if f[0].startswith('s') else EPS['f64']) * max(abs(itv[0][i]), abs(itv[1][i]))
+                if abs(F(r[i]) - F(itv[0][i])) > tol or abs(F(r[d + i]) - F(itv[1][i])) > tol:
+                    bad('aabb-round-trip', 'axis %d: the box built from the interval object (after its unions) gives back [%r, %r], the interval is '
+                        '[%r, %r]' % (i, r[i], r[d + i], itv[0][i], itv[1][i]), axis=i)
+            st('hull_boxes_checked')
         elif op == 'int.inside':
             v = vals(tk[1:])
             exp = all(a <= x <= b for x, a, b in zip(v, itv[0], itv[1]))
